@@ -717,7 +717,6 @@ func (c *Ctx) ownsItsMemory(st *State, msg Value, what string, replay func(val f
 	})
 }
 
-
 // c16primLong: a basic-type list reader on n elements of arbitrary bytes (array-backed), preceded by 0..7 arbitrary
 // bytes that were already consumed (alignment of the payload in the backing array): the returned slice may not
 // share memory with the buffer.
